@@ -1012,7 +1012,7 @@ def _strategy(tier):
 
 
 def plan(tier):
-  n = 6000 if tier == "quick" else 400000
+  n = 64000 if tier == "quick" else 600000
   return [
     Enum("grids", lambda: _all_enum(tier), shards=16),
     Hyp("generated", lambda: _strategy(tier), examples=n, shards=16),
